@@ -198,8 +198,16 @@ class Executor:
         if a.vararg and a.vararg.arg not in frame.env:
             frame.env[a.vararg.arg] = args[a.vararg.arg] = ct.params[a.vararg.arg].fresh(st, a.vararg.arg) if a.vararg.arg in ct.params else ()
         is_gen = any(isinstance(x, (ast.Yield, ast.YieldFrom)) for x in ast.walk(fi.node))
+        if a.kwarg and a.kwarg.arg in ct.params:
+            # typed **kwargs (opt-in, C14): a fresh value of the declared type, visible to the contract as an argument; no key names a
+            # parameter of the function (CPython binds such a keyword to the parameter or raises TypeError before the body runs)
+            frame.env[a.kwarg.arg] = args[a.kwarg.arg] = ct.params[a.kwarg.arg].fresh(st, a.kwarg.arg)
+            kwo = st.heap.get(args[a.kwarg.arg].id) if isinstance(args[a.kwarg.arg], Ref) else None
+            if isinstance(kwo, DictObj) and kwo.k == TStr:
+                for p in params:
+                    st.assume(z3.Not(kwo.member[str_lit(p)]))
         old_heap = st.snapshot()
-        if a.kwarg:
+        if a.kwarg and a.kwarg.arg not in ct.params:
             # the **kwargs dict is a fresh local object of the call (not part of the entry heap: mutating it is invisible to the caller)
             frame.env[a.kwarg.arg] = st.alloc(DictObj.empty(st, TStr, TVal))
         if is_gen:
@@ -392,6 +400,8 @@ class Executor:
         if m is None:
             raise Unsupported(f"statement {type(node).__name__} at line {node.lineno}")
         self.models._plug("before_stmt", self, node)  # ghost code of contracts (plug_caches): assigns ghost variables only
+        if self.models._plug("skip_stmt", self, node) is True:  # opt-in (plug_c03): a statement made only of dropped logging (DESIGN §2.2) is not executed
+            return
         m(node)
 
     def st_Expr(self, node):
@@ -578,7 +588,7 @@ class Executor:
         if ct is None or ordinal not in ct.loops:
             return None
         spec = ct.loops[ordinal]
-        if spec.anchor != anchor_now:
+        if spec.anchor is not None and spec.anchor != anchor_now:  # anchor None: the invariant speaks about the specification's own sequence, whatever the loop runs over
             raise Undecided(f"loop #{ordinal} of {fr.finfo.qualname}: anchor '{spec.anchor}' does not match '{anchor_now}'")
         return spec
 
@@ -986,6 +996,9 @@ class Executor:
         if v is Ellipsis:
             return BuiltinV("Ellipsis")
         if isinstance(v, (bytes, complex)):
+            r = self.models._plug("constant", self, v)  # e.g. complex constants (opt-in: plug_c16)
+            if r is not NotImplemented:
+                return r
             raise Unsupported(f"constant {v!r}")
         return v
 
@@ -1601,6 +1614,10 @@ class Executor:
                 o = st.heap[v.id] if isinstance(v, Ref) else None
                 if isinstance(o, DictObj) and z3.is_int_value(z3.simplify(o.n)) and z3.simplify(o.n).as_long() == 0:
                     continue
+                exp = self.models._plug("expand_kwargs", self, v)  # `**d` of a dict with a known key set (plug_c14): explicit keywords
+                if exp is not NotImplemented:
+                    kwargs.update(exp)
+                    continue
                 kwargs["**"] = v
             else:
                 kwargs[kw.arg] = self.ev(kw.value)
@@ -1689,11 +1706,25 @@ class Executor:
         elif a.vararg is not None:
             bound[a.vararg.arg] = ()
         rest = {}
+        star_rest = None
         for k, v in kwargs.items():
             if k == "**":
                 # f(.., **d) with a symbolic dict of string keys into a signature without **kwargs (CPython semantics): a key naming a
                 # parameter binds it (TypeError when it is already bound), any other key is a TypeError; absent parameters keep their defaults
                 d = self.st.heap[v.id] if isinstance(v, Ref) else None
+                if isinstance(d, DictObj) and d.k == TStr and a.kwarg is not None and not a.posonlyargs and not rest and not d.is_empty_literal:
+                    # f(.., **d) into `def f(.., **kw)` (CPython semantics): a key naming a parameter binds it (TypeError when it is already
+                    # bound), the other entries make up the callee's **kw (a new dict)
+                    dd = d.clone()
+                    dd.origin = None
+                    for p in [x.arg for x in a.args] + kwonly:
+                        if self.st.decide(d.member[str_lit(p)]):
+                            if p in bound:
+                                raise PyRaise("TypeError", lineno)
+                            bound[p] = d.v.project(self.st, d.vals[str_lit(p)])
+                            dd.delete(self.st, str_lit(p))
+                    star_rest = self.st.alloc(dd)
+                    continue
                 if not isinstance(d, DictObj) or d.k != TStr or a.kwarg is not None or a.posonlyargs:
                     raise Unsupported("symbolic **kwargs forwarding")
                 names = [x.arg for x in a.args] + kwonly
@@ -1712,7 +1743,11 @@ class Executor:
                 rest[k] = v
             else:
                 raise PyRaise("TypeError", lineno)
-        if a.kwarg is not None:
+        if a.kwarg is not None and star_rest is not None:
+            if rest:
+                raise Unsupported("explicit keywords after a symbolic **kwargs forwarding")
+            bound[a.kwarg.arg] = star_rest
+        elif a.kwarg is not None:
             bound[a.kwarg.arg] = self.models.make_dict(self, list(rest.keys()), list(rest.values()))
         missing = [p for p in pos + kwonly if p not in bound]
         return bound, missing, defaults
@@ -1721,6 +1756,12 @@ class Executor:
         """Call of a repository function: callee contract, declared external, or inlining."""
         st = self.st
         ct = C.lookup(fi.qualname, setter or fi.kind == "setter")
+        cv = getattr(self.contract, "callee_variants", None)
+        if cv:
+            # opt-in: the verified contract names the contract variant of a callee to be used at its call sites (`qualname[#setter]` -> variant)
+            key = fi.qualname + ("#setter" if setter or fi.kind == "setter" else "")
+            if key in cv:
+                ct = C.all_contracts().get(f"{key}@{cv[key]}", ct)
         if ct is not None and not ct.inline_ok:
             return self.apply_contract(ct, fi, args, kwargs, lineno)
         ext = C.lookup_external(fi.qualname)
